@@ -13,7 +13,9 @@ Record hunit := mkhunit {
   h_ordinary : list string;                     (* typedef names, enumerators, functions, objects *)
   h_tags : list string;                         (* struct / union / enum tags *)
   h_tokens : list string;                       (* identifiers occurring in the header's declarations *)
-  h_inc_late : bool                             (* an #include after the first definition *)
+  h_inc_late : bool;                            (* an #include after the first definition *)
+  h_state_leak : bool                           (* leaves compiler / preprocessor state behind: #pragma pack not restored,
+                                                   push_macro / pop_macro, #undef of a macro it did not define *)
 }.
 
 Definition mem (x:string) (l:list string) : bool := existsb (String.eqb x) l.
